@@ -399,6 +399,37 @@ def _bright_case(args):
     return cnt, out
 
 
+def _lazy_case(args):
+    """Contours obtained lazily for a stack of more masks than the list
+    keeps in memory (1000): every access, in two passes and with revisits
+    in between, equals the directly computed contour."""
+    from dclab.features.contour import get_contour, get_contour_lazily
+    out = []
+    base = [place(m, "interior") for m in all_masks(3)] + \
+        [place(m, "corner") for m in all_masks(4)[::211]]
+    n = 1300
+    masks = np.array([base[i % len(base)] if i % 7 else
+                      np.roll(base[i % len(base)], 1, axis=1)
+                      for i in range(n)])
+    direct = [get_contour(m) for m in masks]
+    lcl = get_contour_lazily(masks)
+    order = list(range(n)) + [0, 5, 999, 1000, 1299, 3] + list(
+        range(n - 1, -1, -1)) + list(range(0, n, 97))
+    cnt = 0
+    for pos, i in enumerate(order):
+        cnt += 1
+        got = lcl[i]
+        if not np.array_equal(got, direct[i]):
+            out.append(violation(
+                "dclab.features.contour:LazyContourList", "wrong-contour",
+                {"kind": "lazy"},
+                f"access {pos} (event {i}) of {len(order)} on a stack of "
+                f"{n} masks: the lazily obtained contour differs from "
+                f"get_contour(mask)", {"lazy": True}))
+            break
+    return cnt, out
+
+
 def _crosstalk_case(args):
     from dclab.features.fl_crosstalk import correct_crosstalk
     out = []
@@ -438,6 +469,7 @@ def run(ctx):
     res += par.pmap(_volume_case, [()])
     res += par.pmap(_bright_case, [(c, 8, ctx.scratch) for c in range(8)])
     res += par.pmap(_crosstalk_case, [()])
+    res += par.pmap(_lazy_case, [()])
     viols = []
     cnt = 0
     for c, vs in res:
@@ -468,6 +500,8 @@ def run(ctx):
 
 
 def replay(case, ctx):
+    if case["kind"] == "lazy":
+        return _lazy_case(())[1]
     if case["kind"] == "mask":
         masks = all_masks()
         target = np.array(case["mask"], bool)
